@@ -1,5 +1,394 @@
-import EnvVerif.Lemmas.Basic
+/-
+  Props/C15.lean — traversal and queries.
+
+  "Walking visits each element exactly once, parents before children, with the correct
+  depth and edge kind; the element count, the per-level and deep digest sets, the
+  subject/assertion accessors and the predicate lookups (which match by digest, hence also
+  through elided predicates) all agree with that structure. Lookups return exactly the
+  matching assertions or objects, report none or several as the corresponding errors ..."
+
+  `elements e` (Model/Inv.lean) is the list of all elements in pre-order; `Child x k c`
+  (Lemmas/WalkLemmas.lean) is the child relation with the role `k` of the child.
+-/
+import EnvVerif.Lemmas.WalkLemmas
 namespace EnvVerif
-/-- placeholder while the property theorems are being written -/
-theorem c15_sort_asc_id {as : List Env} (hs : AscDigests as) : sortByDigest as = as := sortByDigest_of_asc hs
+open Env AW
+
+/-! ### structure walk -/
+
+/-- every element is visited exactly once, in pre-order -/
+theorem walkStructure_elements (e : Env) (lvl : Nat) (edge : Edge) :
+    (walkStructure e lvl edge).map (·.1) = elements e :=
+  walkStructure_map_fst e lvl edge
+
+theorem elementsCount_elements (e : Env) : elementsCount e = (elements e).length :=
+  (elements_length e).symm
+
+theorem walk_length (e : Env) (lvl : Nat) (edge : Edge) :
+    (walkStructure e lvl edge).length = elementsCount e := by
+  rw [← elements_length, ← walkStructure_map_fst e lvl edge, List.length_map]
+
+/-- the first visit is the element itself, with the level and edge given -/
+theorem walk_head (e : Env) (lvl : Nat) (edge : Edge) :
+    (walkStructure e lvl edge).head? = some (e, lvl, edge) := by
+  obtain ⟨rest, hr⟩ := walkStructure_head e lvl edge
+  rw [hr]; rfl
+
+/-- unfolding: a node is followed by its subject (level + 1, edge `subject`) and then by its
+assertions in stored order (level + 1, edge `assertion`) -/
+theorem walk_levels_node (s : Env) (as : List Env) (d : Digest) (lvl : Nat) (edge : Edge) :
+    walkStructure (.node s as d) lvl edge =
+      (.node s as d, lvl, edge) ::
+        (walkStructure s (lvl + 1) .subject ++
+          as.flatMap fun a => walkStructure a (lvl + 1) .assertion) := by
+  simp [walkStructure, walkStructureList_eq]
+
+theorem walk_levels_wrapped (e : Env) (d : Digest) (lvl : Nat) (edge : Edge) :
+    walkStructure (.wrapped e d) lvl edge =
+      (.wrapped e d, lvl, edge) :: walkStructure e (lvl + 1) .wrapped := by
+  simp [walkStructure]
+
+theorem walk_levels_assertion (p o : Env) (d : Digest) (lvl : Nat) (edge : Edge) :
+    walkStructure (.assertion p o d) lvl edge =
+      (.assertion p o d, lvl, edge) ::
+        (walkStructure p (lvl + 1) .predicate ++ walkStructure o (lvl + 1) .object) := by
+  simp [walkStructure]
+
+theorem walk_levels_leafish (e : Env) (he : e.isInternal = false) (lvl : Nat) (edge : Edge) :
+    walkStructure e lvl edge = [(e, lvl, edge)] := by
+  cases e <;> simp [isInternal, isNode, isWrapped, isAssertion] at he <;> simp [walkStructure]
+
+/-- every visit but the first has a parent visit in the list: exactly one level up, and the
+recorded edge is the role of the element in that parent -/
+theorem walk_parent (e : Env) (lvl : Nat) (edge : Edge) :
+    ∀ v ∈ (walkStructure e lvl edge).tail, ∃ pv ∈ walkStructure e lvl edge,
+      Child pv.1 v.2.2 v.1 ∧ v.2.1 = pv.2.1 + 1 :=
+  walkStructure_parent e lvl edge
+
+/-- descendants are strictly deeper than the root of the walk and never have edge `none` -/
+theorem walk_descendants_deeper (e : Env) (lvl : Nat) (edge : Edge) :
+    ∀ v ∈ (walkStructure e lvl edge).tail, lvl < v.2.1 ∧ v.2.2 ≠ Edge.none :=
+  walkStructure_tail_level e lvl edge
+
+/-- **parents first, descendants immediately after**: wherever a visit `v` occurs in the
+walk, the walk continues from there with the complete walk of `v`'s element (at `v`'s level
+and edge), i.e. `v` itself (`walk_head`) followed by all its descendants -/
+theorem walk_parent_first (e : Env) (lvl : Nat) (edge : Edge) (pre post : List Visit) (v : Visit)
+    (hsplit : walkStructure e lvl edge = pre ++ v :: post) :
+    ∃ suf, v :: post = walkStructure v.1 v.2.1 v.2.2 ++ suf :=
+  walkStructure_contig e lvl edge pre v post hsplit
+
+/-- every child of a visited element is visited after it, one level deeper, with the edge
+kind of its role -/
+theorem walk_children_after (e : Env) (lvl : Nat) (edge : Edge) (pre post : List Visit) (v : Visit)
+    (hsplit : walkStructure e lvl edge = pre ++ v :: post) (k : Edge) (c : Env)
+    (hc : Child v.1 k c) : (c, v.2.1 + 1, k) ∈ post := by
+  obtain ⟨suf, hs⟩ := walkStructure_contig e lvl edge pre v post hsplit
+  obtain ⟨rest, hr⟩ := walkStructure_head v.1 v.2.1 v.2.2
+  have hm := child_mem_tail hc v.2.1 v.2.2
+  rw [hr] at hs hm
+  simp only [List.cons_append, List.cons.injEq] at hs
+  rw [hs.2]
+  exact List.mem_append.2 (Or.inl hm)
+
+/-- the accessors agree with the child relation used by the walk: `subject` is the child
+with edge `subject` (an envelope that is not a node is its own subject and has no such
+child), `assertions` are the children with edge `assertion` -/
+theorem accessors_children (e c : Env) :
+    (Child e .subject c ↔ e.isNode = true ∧ c = e.subject) ∧
+    (Child e .assertion c ↔ c ∈ e.assertions) ∧
+    (e.isNode = false → e.subject = e ∧ e.assertions = []) := by
+  refine ⟨⟨?_, ?_⟩, ⟨?_, ?_⟩, ?_⟩
+  · intro hc; cases hc; exact ⟨rfl, rfl⟩
+  · rintro ⟨hn, rfl⟩
+    cases e <;> simp [isNode] at hn
+    exact Child.subject _ _ _
+  · intro hc; cases hc; assumption
+  · intro hm
+    cases e <;> simp [Env.assertions] at hm
+    exact Child.assertion _ _ _ _ hm
+  · intro hn
+    cases e <;> simp [isNode] at hn <;> exact ⟨rfl, rfl⟩
+
+/-! ### tree walk (`hide_nodes`) -/
+
+theorem walk_modes (e : Env) : walk true e = walkTree e 0 ∧ walk false e = walkStructure e 0 .none :=
+  ⟨rfl, rfl⟩
+
+/-- exactly the non-node elements are visited, once each, in pre-order -/
+theorem walkTree_elements (e : Env) (lvl : Nat) :
+    (walkTree e lvl).map (·.1) = (elements e).filter (fun x => !x.isNode) :=
+  walkTree_map_fst e lvl
+
+theorem walkTree_no_nodes (e : Env) (lvl : Nat) : ∀ v ∈ walkTree e lvl, v.1.isNode = false := by
+  intro v hv
+  have : v.1 ∈ (walkTree e lvl).map (·.1) := List.mem_map.2 ⟨v, hv, rfl⟩
+  rw [walkTree_map_fst, List.mem_filter] at this
+  simpa using this.2
+
+/-- every edge is `none` in tree mode, and no level is below the starting level -/
+theorem walkTree_edges_none (e : Env) (lvl : Nat) :
+    ∀ v ∈ walkTree e lvl, v.2.2 = Edge.none ∧ lvl ≤ v.2.1 :=
+  walkTree_edges e lvl
+
+theorem walkTree_length (e : Env) (lvl : Nat) :
+    (walkTree e lvl).length = ((elements e).filter (fun x => !x.isNode)).length := by
+  rw [← walkTree_map_fst e lvl, List.length_map]
+
+/-- tree-mode levels: a node is transparent (its subject keeps the level, its assertions are
+one deeper); wrapped and assertion elements put their children one deeper -/
+theorem walkTree_levels_node (s : Env) (as : List Env) (d : Digest) (lvl : Nat) :
+    walkTree (.node s as d) lvl = walkTree s lvl ++ as.flatMap fun a => walkTree a (lvl + 1) := by
+  simp [walkTree, walkTreeList_eq]
+
+theorem walkTree_levels_wrapped (e : Env) (d : Digest) (lvl : Nat) :
+    walkTree (.wrapped e d) lvl = (.wrapped e d, lvl, .none) :: walkTree e (lvl + 1) := by
+  simp [walkTree]
+
+theorem walkTree_levels_assertion (p o : Env) (d : Digest) (lvl : Nat) :
+    walkTree (.assertion p o d) lvl =
+      (.assertion p o d, lvl, .none) :: (walkTree p (lvl + 1) ++ walkTree o (lvl + 1)) := by
+  simp [walkTree]
+
+theorem walkTree_levels_leafish (e : Env) (he : e.isInternal = false) (lvl : Nat) :
+    walkTree e lvl = [(e, lvl, .none)] := by
+  cases e <;> simp [isInternal, isNode, isWrapped, isAssertion] at he <;> simp [walkTree]
+
+/-! ### digest sets -/
+
+theorem digestsUpTo_spec (e : Env) (n : Nat) (d : Digest) :
+    d ∈ digestsUpTo e n ↔
+      ∃ v ∈ walkStructure e 0 .none, v.2.1 < n ∧ (d = v.1.digest ∨ d = v.1.subject.digest) := by
+  unfold digestsUpTo
+  rw [List.mem_flatMap]
+  constructor
+  · rintro ⟨⟨x, lvl, ed⟩, hv, hd⟩
+    refine ⟨(x, lvl, ed), hv, ?_⟩
+    simp only at hd
+    split at hd
+    · rename_i hlt
+      simp only [List.mem_cons, List.not_mem_nil, or_false] at hd
+      exact ⟨hlt, hd⟩
+    · simp at hd
+  · rintro ⟨⟨x, lvl, ed⟩, hv, hlt, hd⟩
+    refine ⟨(x, lvl, ed), hv, ?_⟩
+    simp only at hlt hd ⊢
+    rw [if_pos hlt]
+    simpa using hd
+
+theorem digestsUpTo_zero (e : Env) : digestsUpTo e 0 = [] := by
+  simp [digestsUpTo]
+
+theorem digestsUpTo_mono (e : Env) (n m : Nat) (hnm : n ≤ m) (d : Digest)
+    (hd : d ∈ digestsUpTo e n) : d ∈ digestsUpTo e m := by
+  rw [digestsUpTo_spec] at hd ⊢
+  obtain ⟨v, hv, hlt, hd⟩ := hd
+  exact ⟨v, hv, by omega, hd⟩
+
+/-- the root digest is in the set as soon as the limit is positive -/
+theorem digestsUpTo_root (e : Env) (n : Nat) (hn : 0 < n) : e.digest ∈ digestsUpTo e n := by
+  rw [digestsUpTo_spec]
+  obtain ⟨rest, hr⟩ := walkStructure_head e 0 .none
+  exact ⟨(e, 0, .none), by rw [hr]; simp, hn, Or.inl rfl⟩
+
+/-- the deep set: every walked digest is in `digestsUpTo e n` for `n` beyond its level -/
+theorem digestsUpTo_deep (e : Env) (d : Digest) (hd : d ∈ walkDigests e) :
+    ∃ n, d ∈ digestsUpTo e n := by
+  simp only [walkDigests, List.mem_map] at hd
+  obtain ⟨v, hv, rfl⟩ := hd
+  exact ⟨v.2.1 + 1, (digestsUpTo_spec e _ _).2 ⟨v, hv, by omega, Or.inl rfl⟩⟩
+
+/-! ### predicate lookups -/
+
+/-- Appendix D: the lookup matches on the digest of the predicate of the element's subject
+(so it sees through decorated assertions, and through elided predicates) -/
+theorem awp_spec (e p : Env) :
+    assertionsWithPredicate e p =
+      e.assertions.filter (fun a =>
+        match a.subject with
+        | .assertion q _ _ => q.digest == p.digest
+        | _ => false) := by
+  unfold assertionsWithPredicate
+  congr 1
+  funext a
+  cases a.subject <;> rfl
+
+/-- exactly the matching assertions -/
+theorem awp_mem (e p a : Env) :
+    a ∈ assertionsWithPredicate e p ↔
+      a ∈ e.assertions ∧ ∃ q o d, a.subject = .assertion q o d ∧ q.digest = p.digest :=
+  mem_awp
+
+/-- **matching through elided predicates**: replacing the predicate of any chosen
+assertions (bare or decorated) by its elided form leaves the set of matching positions
+unchanged; the replacement keeps digests and well-formedness -/
+theorem awp_through_elided (s : Env) (as : List Env) (d : Digest) (p : Env) (S : Env → Bool) :
+    assertionsWithPredicate (.node s (as.map fun a => if S a then elidePred a else a) d) p =
+      (assertionsWithPredicate (.node s as d) p).map fun a => if S a then elidePred a else a := by
+  simp only [awp_eq_filter, Env.assertions, List.filter_map]
+  congr 1
+  apply List.filter_congr
+  intro a _
+  simp only [Function.comp]
+  split
+  · exact matchesPred_elidePred a p
+  · rfl
+
+theorem awp_elidePred_keeps (h : Hash) (a : Env) :
+    (elidePred a).digest = a.digest ∧ (WF h a → WF h (elidePred a)) :=
+  ⟨elidePred_digest a, elidePred_wf h a⟩
+
+theorem assertionWithPredicate_ok_iff (e p a : Env) :
+    assertionWithPredicate e p = .ok a ↔ assertionsWithPredicate e p = [a] := by
+  unfold assertionWithPredicate
+  split <;> simp_all
+
+theorem assertionWithPredicate_nonexistent_iff (e p : Env) :
+    assertionWithPredicate e p = .err "NonexistentPredicate" ↔ assertionsWithPredicate e p = [] := by
+  unfold assertionWithPredicate
+  split <;> simp_all
+
+theorem assertionWithPredicate_ambiguous_iff (e p : Env) :
+    assertionWithPredicate e p = .err "AmbiguousPredicate" ↔
+      2 ≤ (assertionsWithPredicate e p).length := by
+  unfold assertionWithPredicate
+  split
+  · rename_i h0; simp [h0]
+  · rename_i a h1; simp [h1]
+  · rename_i h0 h1
+    simp only [true_iff]
+    cases hl : assertionsWithPredicate e p with
+    | nil => exact absurd hl h0
+    | cons a l =>
+      cases l with
+      | nil => exact absurd hl (h1 a)
+      | cons b l => simp
+
+theorem assertionWithPredicate_no_panic (e p : Env) (s : String) :
+    assertionWithPredicate e p ≠ .panic s := by
+  unfold assertionWithPredicate
+  split <;> simp
+
+/-- `objectForPredicate`: the object of the subject of the unique matching element (also
+for decorated assertions); none / several reported as the corresponding errors -/
+theorem objectForPredicate_spec (e p : Env) :
+    (assertionsWithPredicate e p = [] → objectForPredicate e p = .err "NonexistentPredicate") ∧
+    (∀ a, assertionsWithPredicate e p = [a] →
+      ∃ q o d, a.subject = .assertion q o d ∧ q.digest = p.digest ∧
+        objectForPredicate e p = .ok o) ∧
+    (2 ≤ (assertionsWithPredicate e p).length →
+      objectForPredicate e p = .err "AmbiguousPredicate") := by
+  refine ⟨?_, ?_, ?_⟩
+  · intro h0
+    simp [objectForPredicate, (assertionWithPredicate_nonexistent_iff e p).2 h0]
+  · intro a h1
+    have hm : a ∈ assertionsWithPredicate e p := by rw [h1]; simp
+    obtain ⟨_, q, o, d, hs, hq⟩ := mem_awp.1 hm
+    refine ⟨q, o, d, hs, hq, ?_⟩
+    simp [objectForPredicate, (assertionWithPredicate_ok_iff e p a).2 h1, hs, asObject]
+  · intro h2
+    simp [objectForPredicate, (assertionWithPredicate_ambiguous_iff e p).2 h2]
+
+/-- on an undecorated matching assertion: its object -/
+theorem objectForPredicate_undecorated (e p q o : Env) (d : Digest)
+    (h1 : assertionsWithPredicate e p = [.assertion q o d]) : objectForPredicate e p = .ok o := by
+  obtain ⟨q', o', d', hs, _, hr⟩ := (objectForPredicate_spec e p).2.1 _ h1
+  simp only [Env.subject, Env.assertion.injEq] at hs
+  rw [hr, hs.2.1]
+
+theorem objectForPredicate_no_panic (e p : Env) (s : String) :
+    objectForPredicate e p ≠ .panic s := by
+  obtain ⟨h0, h1, h2⟩ := objectForPredicate_spec e p
+  cases hl : assertionsWithPredicate e p with
+  | nil => rw [h0 hl]; simp
+  | cons a l =>
+    cases l with
+    | nil =>
+      obtain ⟨q, o, d, _, _, hr⟩ := h1 a hl
+      rw [hr]; simp
+    | cons b l => rw [h2 (by simp [hl])]; simp
+
+/-- `objectsForPredicate`: the objects of the subjects of all matching elements, in order -/
+theorem objectsForPredicate_spec (e p : Env) :
+    objectsForPredicate e p =
+      .ok ((assertionsWithPredicate e p).filterMap fun a => asObject a.subject) ∧
+    ((assertionsWithPredicate e p).filterMap fun a => asObject a.subject).length =
+      (assertionsWithPredicate e p).length := by
+  have hall : ∀ a ∈ assertionsWithPredicate e p, ∃ o, asObject a.subject = some o := by
+    intro a ha
+    obtain ⟨_, q, o, d, hs, _⟩ := mem_awp.1 ha
+    exact ⟨o, by rw [hs]; rfl⟩
+  refine ⟨objectsFold_spec _ hall, ?_⟩
+  generalize assertionsWithPredicate e p = l at hall
+  induction l with
+  | nil => rfl
+  | cons a l ih =>
+    obtain ⟨o, ho⟩ := hall a (by simp)
+    simp [ho, ih (fun b hb => hall b (by simp [hb]))]
+
+theorem objectsForPredicate_no_panic (e p : Env) (s : String) :
+    objectsForPredicate e p ≠ .panic s := by
+  rw [(objectsForPredicate_spec e p).1]; simp
+
+theorem optionalObjectForPredicate_spec (e p : Env) :
+    (assertionsWithPredicate e p = [] → optionalObjectForPredicate e p = .ok none) ∧
+    (∀ a, assertionsWithPredicate e p = [a] →
+      ∃ q o d, a.subject = .assertion q o d ∧ q.digest = p.digest ∧
+        optionalObjectForPredicate e p = .ok (some o)) ∧
+    (2 ≤ (assertionsWithPredicate e p).length →
+      optionalObjectForPredicate e p = .err "AmbiguousPredicate") := by
+  refine ⟨?_, ?_, ?_⟩
+  · intro h0
+    simp [optionalObjectForPredicate, h0]
+  · intro a h1
+    have hm : a ∈ assertionsWithPredicate e p := by rw [h1]; simp
+    obtain ⟨_, q, o, d, hs, hq⟩ := mem_awp.1 hm
+    refine ⟨q, o, d, hs, hq, ?_⟩
+    simp [optionalObjectForPredicate, h1, hs, asObject]
+  · intro h2
+    cases hl : assertionsWithPredicate e p with
+    | nil => simp [hl] at h2
+    | cons a l =>
+      cases l with
+      | nil => simp [hl] at h2
+      | cons b l => simp [optionalObjectForPredicate, hl]
+
+theorem optionalObjectForPredicate_no_panic (e p : Env) (s : String) :
+    optionalObjectForPredicate e p ≠ .panic s := by
+  obtain ⟨h0, h1, h2⟩ := optionalObjectForPredicate_spec e p
+  cases hl : assertionsWithPredicate e p with
+  | nil => rw [h0 hl]; simp
+  | cons a l =>
+    cases l with
+    | nil =>
+      obtain ⟨q, o, d, _, _, hr⟩ := h1 a hl
+      rw [hr]; simp
+    | cons b l => rw [h2 (by simp [hl])]; simp
+
+/-! ### the hypotheses are satisfiable -/
+
+section Examples
+open AW.Toy
+
+/-- `walk_parent_first`, `walk_children_after`: a split of the walk of `exNode` at the visit
+of its second assertion, which has two children -/
+example : ∃ pre post, walkStructure exNode 0 .none = pre ++ (exA1, 1, Edge.assertion) :: post ∧
+    Child exA1 .predicate (newLeaf hLen (.uint 2)) :=
+  ⟨[(exNode, 0, .none), (exSubj, 1, .subject), (exA2, 1, .assertion)],
+   [(newLeaf hLen (.uint 2), 2, .predicate), (newLeaf hLen (.uint 3), 2, .object)],
+   by simp [exNode, nodeOf, walkStructure, walkStructureList, exSubj, exA1, exA2, newLeaf, newAssertion],
+   Child.predicate _ _ _⟩
+
+/-- `objectForPredicate_spec`: a unique match through an elided predicate, on a decorated
+assertion -/
+example :
+    let q := newLeaf hLen (.uint 2)
+    let a := Env.node (.assertion (.elided q.digest) (newLeaf hLen (.uint 3)) ⟨9⟩) [exA2] ⟨11⟩
+    assertionsWithPredicate (.node exSubj [exA2, a] ⟨12⟩) q = [a] := by
+  simp [assertionsWithPredicate, Env.assertions, Env.subject, asPredicate, exA2, Env.digest]
+
+/-- `walk_levels_leafish`, `walkTree_levels_leafish` -/
+example : exA2.isInternal = false := rfl
+end Examples
+
 end EnvVerif
